@@ -351,6 +351,16 @@ Proof.
   - apply in_esort in H'. eauto.
 Qed.
 
+(* rows of any sub-select with an explicit projection are restrictions to the projected variables *)
+Lemma finalize_in_restrict : forall s vs rows m, proj_vars (ss_proj s) = Some vs -> In m (finalize_subquery s rows) ->
+  exists m0, m = restrict vs m0.
+Proof.
+  intros s vs rows m E H. unfold finalize_subquery in H. rewrite E in H.
+  assert (H1 : In m (map (restrict vs) (esort (ss_order s) (eaggregate true (ss_proj s) (ss_group s) rows)))).
+  { destruct (ss_limit s); [apply firstn_incl in H|]; (destruct (ss_distinct s); [apply dedup_incl in H|]; exact H). }
+  apply in_map_iff in H1. destruct H1 as (m0 & E0 & _). eauto.
+Qed.
+
 Theorem sem_poss : forall st ev l inb, ok_in inb l = true ->
   forall active m x w, In m (sem st ev active l) -> lookup m x = Some w -> In x (poss l).
 Proof.
@@ -373,12 +383,17 @@ Proof.
     apply in_join in Hm. destruct Hm as (a & b & Ha & Hb & M).
     rewrite (merge_rows_lookup _ _ _ x M) in L. apply in_or_app.
     destruct (lookup a x) eqn:E; [left; eapply IHl1; eauto | right; eapply IHl2; eauto].
-  - cbn [sem poss ok_in] in *. apply andb_true_iff in OK. destruct OK as [S OK].
-    destruct (simple_finalize_in _ _ _ S Hm) as (m0 & H0 & E). subst m.
-    destruct (proj_vars (ss_proj s)) as [vs|].
-    + rewrite lookup_restrict in L. destruct (mem_var x vs) eqn:Ev; [|discriminate].
-      apply inter_in. split; [eapply IHl; eauto | apply mem_var_in; auto].
-    + eapply IHl; eauto.
+  - cbn [sem poss ok_in] in *. apply andb_true_iff in OK. destruct OK as [S OK]. unfold order_free in S.
+    destruct (simple_sub s) eqn:S1.
+    + destruct (simple_finalize_in _ _ _ S1 Hm) as (m0 & H0 & E). subst m.
+      destruct (proj_vars (ss_proj s)) as [vs|].
+      * rewrite lookup_restrict in L. destruct (mem_var x vs) eqn:Ev; [|discriminate].
+        apply inter_in. split; [eapply IHl; eauto | apply mem_var_in; auto].
+      * eapply IHl; eauto.
+    + cbn [orb] in S. unfold agg_sub in S. apply andb_true_iff in S. destruct S as [S _].
+      destruct (ss_proj s) as [items|] eqn:Ep; [|discriminate S]. cbn [proj_vars option_map].
+      destruct (finalize_in_restrict s _ (sem st ev active l) m (f_equal proj_vars Ep) Hm) as (m0 & E). subst m.
+      rewrite lookup_restrict in L. destruct (mem_var x _) eqn:Ev; [|discriminate]. apply mem_var_in. exact Ev.
   - cbn [sem poss ok_in] in *. apply andb_true_iff in OK. destruct OK as [OK _]. apply andb_true_iff in OK. destruct OK as [OK _].
     apply in_map_iff in Hm. destruct Hm as (m0 & E & H0). subst m. unfold bind_row in L. rewrite lookup_insert in L.
     destruct (N.eqb_spec v x); [left; auto | right; eapply IHl; eauto].
@@ -417,7 +432,8 @@ Proof.
     destruct (lookup a x) eqn:E; [discriminate|]. destruct Hx as [Hx|Hx].
     + exfalso. eapply IHl1; eauto.
     + eapply IHl2; eauto.
-  - cbn [sem cert ok_in] in *. apply andb_true_iff in OK. destruct OK as [S OK]. rewrite S in Hx.
+  - cbn [sem cert ok_in] in *. apply andb_true_iff in OK. destruct OK as [_ OK].
+    destruct (simple_sub s) eqn:S; [|contradiction].
     destruct (simple_finalize_in _ _ _ S Hm) as (m0 & H0 & E). subst m.
     destruct (proj_vars (ss_proj s)) as [vs|].
     + apply inter_in in Hx. destruct Hx as [Hx1 Hx2]. rewrite lookup_restrict.
